@@ -714,6 +714,18 @@ func (e *exec) multisig(s *Step) {
 	tr[0] = tr[0][:len(tr[0])-1]
 	bad("truncated", tr)
 	bad("extra", append(append([][]byte{}, sigs...), sigs[0]))
+	// placeholder slots: the one-byte filler a partially signed multisignature carries for those who have not signed
+	fill := append([][]byte{}, sigs...)
+	fill[n-1] = []byte{0}
+	bad("one-filler", fill)
+	allFill := make([][]byte, n)
+	for i := range allFill {
+		allFill[i] = []byte{0}
+	}
+	bad("all-fillers", allFill)
+	empty := append([][]byte{}, sigs...)
+	empty[0] = []byte{}
+	bad("empty-slot", empty)
 	// nested: the multisig key as a component of another one; its signature is the marshalled inner multisignature
 	outerPubs := []crypto.PublicKey{pubs[0], pk}
 	outer := crypto.PublicKeyMultiSignature{PublicKeys: outerPubs}
